@@ -255,7 +255,7 @@ func interpretedPkg(path string) bool {
 		return true
 	}
 	switch path {
-	case "github.com/goblimey/go-crc24q/crc24q", "errors", "sort", "slices", "cmp", "unicode/utf8", "bytes", "math/bits", "bufio":
+	case "github.com/goblimey/go-crc24q/crc24q", "errors", "sort", "slices", "cmp", "unicode/utf8", "bytes", "math/bits", "bufio", "encoding/binary", "sync/atomic":
 		return true
 	}
 	return false
